@@ -184,7 +184,10 @@ func Generate(t *tape.Tape, p Profile) *World {
 		if p.Unformatted && t.Chance(1, 4) {
 			w.Unfmt[i] = true
 		}
-		if p.LineDirective && t.Chance(1, 2) {
+		if p.LineDirective && t.Chance(1, 5) {
+			// the output of another generator that contains derive calls
+			w.LineDir[i] = "// Code generated by mockgen. DO NOT EDIT.\n"
+		} else if p.LineDirective && t.Chance(1, 2) {
 			k := t.Intn(3)
 			w.LineDir[i] = []string{"//line gram.y:1", "//line ../gen/lexer.rl:1", "//line p.go.tmpl:10"}[k]
 			// the file the directive names exists, as it does for goyacc / ragel / template output
